@@ -386,9 +386,13 @@ theorem n_aniso_fails_on : ¬ nAnisoStatement := by
   revert this
   decide +kernel
 
-/-- **n_iso_spec** — the isotropic count is the number of non-peak atoms with a single displacement value,
+/-- full-strength statement of the isotropic count — FALSE for the code (known finding
+    `C03|view|n_iso|with-zero-height-peaks`) -/
+def nIsoStatement : Prop := ∀ l : List ViewAtom, View.nIso l = View.specNIso l
+
+/-- **n_iso_partial** — the isotropic count is the number of non-peak atoms with a single displacement value,
     provided peaks carry a height and anisotropic values do not sum to exactly zero -/
-theorem n_iso_spec (l : List ViewAtom) (hq : ∀ a ∈ l, a.obs.qpeak = true → View.hasAniso a.obs.uvals = true)
+theorem n_iso_partial (l : List ViewAtom) (hq : ∀ a ∈ l, a.obs.qpeak = true → View.hasAniso a.obs.uvals = true)
     (hu : ∀ a ∈ l, View.hasAniso a.obs.uvals = true → View.tailSum a.obs.uvals ≠ 0) :
     View.nIso l = View.specNIso l := by
   unfold View.nIso View.specNIso
@@ -402,6 +406,12 @@ theorem n_iso_spec (l : List ViewAtom) (hq : ∀ a ∈ l, a.obs.qpeak = true →
     cases hqq : a.obs.qpeak with
     | false => simp
     | true => rw [hq a ha hqq] at hh; cases hh
+
+theorem n_iso_fails_on : ¬ nIsoStatement := by
+  intro h
+  have := h [⟨⟨0, 1, 11, [5/100, 0, 0, 0, 0, 0], 0, 0, 0, "", true⟩, "C"⟩]
+  revert this
+  decide +kernel
 
 example : View.nAniso (viewAtoms ["C", "H", "O"] (specAtoms demoFile)) = 3 ∧
     View.specNAniso (viewAtoms ["C", "H", "O"] (specAtoms demoFile)) = 1 := by decide +kernel
